@@ -132,6 +132,22 @@ def oracleBytes (want : Spec.Filter.Expr) (wire : Bytes) : String :=
   | some [none] => "fail:tokenizer-rejects"
   | _ => "fail:not-one-request-line"
 
+/-- the same for a request built by one of the typed commands that carry a filter (`find`, `list`,
+`count`, with sort / window / group): exactly one argument is a filter expression (it starts with
+`(`), and it must denote the expression that was built -/
+def oracleVia (want : Spec.Filter.Expr) (wire : Bytes) : String :=
+  match Spec.Tok.tokenizeStream wire with
+  | some [some (_, args)] =>
+    match args.filter (fun a => a.head? == some 40) with
+    | [inner] =>
+      match Spec.Filter.parseFilterTop inner with
+      | none => "fail:filter-parser-rejects"
+      | some e => if Spec.Filter.Expr.beq e.norm want.norm then "ok" else "fail:different-expression"
+    | [] => "fail:the-filter-was-not-sent"
+    | _ => "fail:more-than-one-filter-argument"
+  | some [none] => "fail:tokenizer-rejects"
+  | _ => "fail:not-one-request-line"
+
 def isPlain (v : Bytes) : Bool := !v.isEmpty && v.all fun b => isAlpha b || isDigit b
 
 def handle (toks : List String) (impl : String) : Verdict :=
@@ -161,6 +177,24 @@ def handle (toks : List String) (impl : String) : Verdict :=
           | .not _ => "not"
           | .and fs => if fs.length ≤ 6 then s!"and-{fs.length}" else "and-7+"
       { model := fmtSent (Filter.sendFind f), oracle, cls := if Filter.K2 f then "K2" else "-", branch }
+    | _ => bad "tree"
+  | ["filter.via", path, tree] =>
+    -- the filter travels inside a typed command; the model of those commands is family `commands`
+    -- (C15): here only the oracle speaks, the model column repeats the implementation
+    let cs := tree.toList
+    match parseTree (cs.length + 1) cs with
+    | some (a, []) =>
+      let f := build a
+      let words := Filter.wordTags f
+      let oracle :=
+        if impl == "rejected" then (if Filter.hasForbidden f then "ok" else "fail:rejected-without-reason")
+        else if impl.startsWith "ok:" then
+          match unhex (impl.drop 3).toString with
+          | none => "fail:unparsable-result"
+          | some wire => if !words || Filter.K2 f then "ok" else oracleVia (expected a) wire
+        else if impl == "PANIC" then (if Filter.hasForbidden f then "ok" else "fail:panic")
+        else "fail:unparsable-result"
+      { model := impl, oracle, branch := s!"via-{path}" }
     | _ => bad "tree"
   | _ => bad "filter"
 
